@@ -33,7 +33,7 @@ theorem pals_constants :
     are the ones the model was written against; a change to either function breaks this
     obligation and makes the check search for a failing input -/
 theorem decision_logic_fingerprints :
-    fpAlignRecursion = "94c67302c48d3359" ∧ fpAlignTraps = "12866ecdea35edb5" := by decide
+    fpAlignRecursion = "d76e96b076003751" ∧ fpAlignTraps = "12866ecdea35edb5" := by decide
 
 /-- the PALS matrix of the property -/
 def palsMatrix : Matrix := palsS SameCost DiffCost
